@@ -9,6 +9,8 @@
    closedness (each simplex of order k has k+1 faces of order k-1 and a basis of k+1 points). *)
 From Coq Require Import String ZArith Bool Arith List.
 From SV Require Import Names NamesFacts ListFacts Rep Fresh Complex Atomic RepInv Reach Homology Filtration Gen World Small Sweeps Shapes AddEffect Closed ClosedReach VInv AwbSpec VReach VSets.
+From SV Require Import TopOrder.
+
 Import ListNotations.
 
 (* the invariant holds after any sequence of add / relabel / delete requests on the representation,
@@ -147,3 +149,13 @@ Theorem C01_closed_under_subsets :
   NoDup B -> B <> nil -> incl B (basisOf r t) -> exists u, containsSimplex r u = true /\ sameset (basisOf r u) B.
 Proof. exact closed_under_subsets. Qed.
 Print Assumptions C01_closed_under_subsets.
+
+(* EVERY HISTORY OF PUBLIC OPERATIONS: maxOrder() bounds every order, is -1 exactly when the complex holds
+   nothing, and the order it names holds a simplex (the code steps the maximum down one order at a time) *)
+Theorem C01_maxOrder_is_the_largest_populated_order :
+  forall uid ops, let r := fold_left pstep ops (empty_rep uid) in
+  (forall s k j, assoc s (r_simp r) = Some (k, j) -> Z.of_nat k <= maxOrder r)%Z /\
+  ((maxOrder r = -1)%Z <-> forall s, containsSimplex r s = false) /\
+  ((0 <= maxOrder r)%Z -> exists s j, assoc s (r_simp r) = Some (Z.to_nat (maxOrder r), j)).
+Proof. exact maxOrder_is_largest_populated_order. Qed.
+Print Assumptions C01_maxOrder_is_the_largest_populated_order.
